@@ -8,6 +8,12 @@ TRUST = ["Eigen dense self-adjoint eigen-solver, LU and MatrixFunctions::exp use
          "held on the executions observed only; nothing is claimed for inputs/schedules that were not run"]
 
 VH = {
+    "C07": dict(drivers=[dict(driver="symm", flavours=P2, timeout=30)],
+                floor=dict(quick=60, thorough=600),
+                rule="cases = generated lattice (heterogeneous spin/orbital counts, spinless sites, 3-spin sites) x Hamiltonian (with/without N, S_z conservation) x analysis mode "
+                     "(default / ignored / custom candidates: integer-linear, decimal-linear, non-linear diagonal, non-conserved, conserved-but-non-diagonal); monitors computed independently from "
+                     "Jordan-Wigner images: partition + address round trip, H block-diagonality, single-target of c_i, c+_i, c+_i c_j, getBlockMapping == independent image map, must-reject candidates rejected; "
+                     "non-trivial = N>=2 and (>=2 blocks or symmetries ignored); distinct by model + mode + candidates"),
     "C01": dict(drivers=[dict(driver="gfdef", flavours=P2, timeout=60)],
                 floor=dict(quick=40, thorough=400),
                 rule="cases = generated model x partition (default / every 3rd: symmetries ignored) x {real,complex}; per case all (N<=4) or sampled index pairs x 12 Matsubara numbers "
@@ -25,6 +31,10 @@ HOOK_COMMITS = []
 NOT_YET = {}
 
 INFO = {
+    "C07": dict(technique="runtime invariant monitor over StatesClassification / FieldOperator block maps vs independently computed Jordan-Wigner images, on generated lattices and hostile integral-of-motion candidates",
+                level_text="The partition produced by the real symmetry analysis is checked state by state (coverage, round trip, block-diagonality of H, single-target of every elementary operator, block maps) against images computed independently, for default/ignored/custom analyses incl. candidates that must be rejected; held on what was run.",
+                level_note="Hash collisions between different quantum-number vectors cannot be found by running; N <= 6 quick / 8 thorough.",
+                design_ref="DESIGN.md section 3, C07"),
     "C01": dict(technique="runtime oracle monitor: returned G_ij(i w_n) vs definition integral (independent full ED Lehmann + Van Loan block exponential) on generated models",
                 level_text="Every value returned by the stand-alone object, the container and both call overloads is compared with the definition on generated models incl. degenerate, near-degenerate, S_z- and N-breaking ones, in real and complex builds, with a per-run tolerance that allows exactly the documented reductions; held on what was run.",
                 level_note="Trusts Eigen (eigen-solver, expm) and the harness's Jordan-Wigner construction; N <= 5 quick / 7 thorough; Matsubara axis only (off-axis z in C11).",
